@@ -1584,6 +1584,11 @@ func (sc *serverConn) closeStream(st *stream, err error) {
 			sc.startGracefulShutdownInternal()
 		}
 	}
+	// Drop the stream's queued frames before anything below can schedule a
+	// write: sending the connection-level WINDOW_UPDATE may pop the next frame,
+	// and a frame still queued for this (now closed) stream, such as its own
+	// WINDOW_UPDATE, must not be the one.
+	sc.writeSched.CloseStream(st.id)
 	if p := st.body; p != nil {
 		// Return any buffered unread bytes worth of conn-level flow control.
 		// See golang.org/issue/16481
@@ -1605,7 +1610,6 @@ func (sc *serverConn) closeStream(st *stream, err error) {
 	st.closeErr = err
 	st.cancelCtx()
 	st.cw.Close() // signals Handler's CloseNotifier, unblocks writes, etc
-	sc.writeSched.CloseStream(st.id)
 }
 
 func (sc *serverConn) processSettings(f *SettingsFrame) error {
